@@ -1,8 +1,27 @@
 package main
 
 import (
+	"bufio"
+	"bytes"
+	"fmt"
+	"io"
+	"strings"
+	"testing/iotest"
+
+	"filippo.io/age"
+	"filippo.io/age/armor"
 	"verifharness/h"
 )
+
+// fdecSrcCaseLoose: like fdecSrcCase for inputs whose validity is not known in advance (mutated
+// armor may be a tolerated variation): only the model comparison and the prefix oracle apply.
+func fdecSrcCaseLoose(rr *h.Rand, p *party, file, truth []byte, note string) *h.Case {
+	c := fdecSrcCase(rr, p, file, true, truth, false, note)
+	if strings.Contains(c.Oracle, "clean end of stream") || strings.Contains(c.Oracle, "is rejected") {
+		c.Oracle = ""
+	}
+	return c
+}
 
 func init() {
 	register("C12", "stream.Writer / stream.Reader (through verifhook) driven with generated write segmentations, "+
@@ -10,8 +29,142 @@ func init() {
 		"performs at least one operation, distinct by (operation line, observation)", runC12)
 }
 
+// fdecSrcCase decrypts a whole file with age.Decrypt through one of many kinds of source
+// (plain, buffered readers of small and large sizes passed DIRECTLY, one byte at a time, half
+// reads, data together with EOF, arbitrary piece schedules) and with different read-buffer sizes;
+// the model's prediction does not depend on any of that.
+func fdecSrcCase(rr *h.Rand, p *party, file []byte, armored bool, truth []byte, valid bool, note string) *h.Case {
+	kind := rr.Intn(9)
+	var src io.Reader = bytes.NewReader(file)
+	desc := "bytes.Reader"
+	switch kind {
+	case 1:
+		sz := h.Pick(rr, []int{16, 17, 100, 512, 1000, 4095, 4096, 4097, 65536})
+		src, desc = bufio.NewReaderSize(bytes.NewReader(file), sz), fmt.Sprintf("bufio(%d)", sz)
+	case 2:
+		src, desc = iotest.OneByteReader(bytes.NewReader(file)), "OneByteReader"
+	case 3:
+		src, desc = iotest.HalfReader(bytes.NewReader(file)), "HalfReader"
+	case 4:
+		src, desc = iotest.DataErrReader(bytes.NewReader(file)), "DataErrReader"
+	case 5:
+		sz := h.Pick(rr, []int{16, 64, 512})
+		src, desc = bufio.NewReaderSize(iotest.DataErrReader(bytes.NewReader(file)), sz), fmt.Sprintf("bufio(%d) over DataErrReader", sz)
+	case 6:
+		src, desc = &h.SchedReader{Data: append([]byte(nil), file...), Pieces: randPieces(rr), EOFWith: rr.Bool()}, "scheduled pieces"
+	case 7:
+		src, desc = bufio.NewReaderSize(iotest.OneByteReader(bytes.NewReader(file)), 16), "bufio(16) over OneByteReader"
+	}
+	if armored {
+		src = armor.NewReader(src)
+	}
+	n := 0
+	rd, err := age.Decrypt(src, countingIdentity{p.id, &n})
+	impl := ""
+	var out []byte
+	oracle := ""
+	if err != nil {
+		impl = fmt.Sprintf("err consulted=%d", n)
+	} else {
+		buf := make([]byte, h.Pick(rr, []int{1, 7, 4096, 65536, 70000}))
+		var rerr error
+		for {
+			k, e := rd.Read(buf)
+			out = append(out, buf[:k]...)
+			if e != nil {
+				rerr = e
+				break
+			}
+		}
+		cls := rErrClass(rerr)
+		if armored && cls != "eof" {
+			cls = "fail"
+		}
+		impl = fmt.Sprintf("ok consulted=%d %s out=%s", n, cls, h.Sum(out))
+		if valid && (rerr != io.EOF || !bytes.Equal(out, truth)) {
+			oracle = fmt.Sprintf("a valid file read through %s does not decrypt to its plaintext (%v, %d bytes)", desc, rerr, len(out))
+		}
+		if !valid && rerr == io.EOF {
+			oracle = "a damaged file reached a clean end of stream through " + desc
+		}
+		if !bytes.HasPrefix(truth, out) && oracle == "" {
+			oracle = "released bytes are not a prefix of the plaintext"
+		}
+	}
+	if valid && err != nil {
+		oracle = fmt.Sprintf("a valid file read through %s is rejected: %v", desc, err)
+	}
+	line := fmt.Sprintf("fdec %s %s", p.idD, h.Hex(file))
+	canon := canonDec
+	if armored {
+		line = fmt.Sprintf("afdec %d %s %s", maxWS, p.idD, h.Hex(file))
+		fail := strings.NewReplacer(" srcerr ", " fail ", " reject ", " fail ", " truncated ", " fail ")
+		canon = func(s string) string { return fail.Replace(canonDec(s)) }
+	}
+	return &h.Case{Kind: "file-src", Line: line, Impl: impl, Oracle: oracle, NonTrivial: true, Canon: canon,
+		Note: fmt.Sprintf("%s; source=%s armored=%v valid=%v", note, desc, armored, valid)}
+}
+
 func runC12(cx *ctx) {
 	r := cx.rng
+	// whole files through age.Decrypt under every kind of source, valid and damaged, binary and armored
+	for i := 0; i < cx.n(400, 6000); i++ {
+		rr := r.Fork()
+		cx.ru.Do(func() *h.Case {
+			p := mkParty(rr, rr.Intn(4))
+			n := h.Pick(rr, smallLens)
+			if rr.Intn(6) == 0 {
+				n = h.Pick(rr, boundaryLens)
+			}
+			pt := rr.Bytes(n)
+			armored := rr.Intn(3) == 0
+			file, err, _ := realEncryptFile(rr.Bytes(200), []age.Recipient{p.rec}, segment(rr, pt), armored)
+			if err != nil {
+				panic(err)
+			}
+			valid := true
+			note := fmt.Sprintf("%s pt=%d", p.label, n)
+			if rr.Intn(3) == 0 {
+				valid = false
+				if armored {
+					file, _ = mutateHeader(rr, file)
+					if bytes.Equal(normaliseArmor(file), normaliseArmor(realArmor(nil))) {
+						valid = true
+					}
+					// an armored mutation may be a tolerated variation: decide validity by the reference result instead
+					return fdecSrcCaseLoose(rr, p, file, pt, note+" mutated armor")
+				}
+				_, hdrBytes, _ := splitHeader(file)
+				pos := len(hdrBytes) + rr.Intn(len(file)-len(hdrBytes))
+				switch rr.Intn(3) {
+				case 0:
+					file[pos] ^= 1 << uint(rr.Intn(8))
+					note += fmt.Sprintf(" payload bit flip at %d", pos)
+				case 1:
+					file = file[:pos]
+					note += fmt.Sprintf(" truncated to %d", pos)
+				default:
+					file = append(file, rr.Bytes(1+rr.Intn(3))...)
+					note += " trailing bytes"
+				}
+			}
+			return fdecSrcCase(rr, p, file, armored, pt, valid, note)
+		})
+	}
+	// a full-length final chunk followed by ONE trailing byte, delivered together with EOF (fixed defect F12)
+	for _, k := range []int{1, 2} {
+		for _, extra := range []int{1, 2} {
+			k, extra := k, extra
+			rr := r.Fork()
+			cx.ru.Do(func() *h.Case {
+				key := rr.Bytes(32)
+				pt := rr.Bytes(k * C)
+				ct := realEncrypt(key, pt)
+				bad := append(append([]byte(nil), ct...), rr.Bytes(extra)...)
+				return srCase("trailing-with-eof", key, bad, false, nil, true, []int{C}, pt, ct, fmt.Sprintf("%d full chunks + %d trailing byte(s), data and EOF in one Read", k, extra))
+			})
+		}
+	}
 	// writer: segmentations
 	for _, n := range cx.lens(r, cx.n(60, 200), cx.n(14, 80)) {
 		n := n
